@@ -178,6 +178,35 @@ fn run<C: CI>(ctx: &mut Ctx) {
         }
     });
 
+    ctx.group(&format!("{name}/exact-fit"), |ctx| {
+        // input buffers and parsed sequences without spare room: texts of whole-word lengths held in boxed byte
+        // slices (the allocation ends with the last byte), also with one bad byte at the last / first position;
+        // display of exact-capacity sequences and of windows that are the tail of such an allocation
+        let cases = exact_fit_cases_for(ctx, a.bits);
+        for (n, pad) in cases {
+            if ctx.over() {
+                break;
+            }
+            let v: Box<[u8]> = valid_text(&mut ctx.rng, a, n + pad).into_boxed_slice();
+            judge::<C>(ctx, &v, "valid-exact-fit");
+            if !v.is_empty() && !bad.is_empty() {
+                let mut w = v.clone();
+                let at = if pad % 2 == 0 { w.len() - 1 } else { 0 };
+                w[at] = *ctx.rng.pick(&bad.iter().copied().filter(|b| *b < 0x80).collect::<Vec<u8>>());
+                judge::<C>(ctx, &w, "bad-byte-exact-fit");
+            }
+            // display of exact-fit values
+            let codes: Vec<u8> = v.iter().map(|b| a.code_of_char(*b).unwrap()).collect();
+            let _fit = exact_fit_mode();
+            let p = Padded::<C>::new(&mut ctx.rng, pad, &codes[pad..], 0);
+            ctx.eval();
+            let r = observe(|| (p.parent.to_string(), p.slice().to_string(), String::from(p.slice()), format!("{}", &p.parent[p.parent.len()..])));
+            let want = a.text(&codes[pad..]);
+            check!(ctx, r.as_ref().map(|r| (r.1 == want, r.2 == want, r.0.ends_with(&want) && r.0.len() == pad + n, r.3.is_empty())) == Ok((true, true, true, true)), format!("display|{name}|exact-fit"), "{name}: display of an exact-capacity sequence / its tail window: {:?}, want the window to read {:?}", r, want);
+            cell!(ctx, "{name}/exact-fit/{}/pad{}", len_class(a.bits, n), if pad == 0 { "0" } else if (pad * a.bits as usize) % 64 == 0 { "word" } else { "unaligned" });
+        }
+    });
+
     ctx.group(&format!("{name}/injected-bad-bytes"), |ctx| {
         let rounds = ctx.n(3000, 80000, 6);
         let lens = boundary_lengths(a.bits, 3);
@@ -326,6 +355,19 @@ fn run<C: CI>(ctx: &mut Ctx) {
 
 fn main() {
     run_main("C01", |ctx| {
+        ctx.first_use_race(3, |t| {
+            let texts = ["ACGTTGCAACGTACGTACGTACGTACGTACGTTTGAC", "ACGTNNRYKM-", "MAGICLIFE*"];
+            (
+                Seq::<Dna>::try_from(texts[t % 3]).map(|s| s.to_string()).map_err(|e| format!("{e:?}")),
+                Seq::<Iupac>::try_from(texts[(t + 1) % 3]).map(|s| s.to_string()).map_err(|e| format!("{e:?}")),
+                Seq::<Amino>::try_from(texts[(t + 2) % 3]).map(|s| s.to_string()).map_err(|e| format!("{e:?}")),
+                Seq::<Text>::try_from("ACGTN").map(|s| s.to_string()).map_err(|e| format!("{e:?}")),
+                Seq::<MDna>::try_from("ACgtNn-").map(|s| s.to_string()).map_err(|e| format!("{e:?}")),
+                Seq::<MIupac>::try_from("ACgtRyNn-.").map(|s| s.to_string()).map_err(|e| format!("{e:?}")),
+                Seq::<Degen>::try_from("SWSWSSWW").map(|s| s.to_string()).map_err(|e| format!("{e:?}")),
+                Seq::<Dna>::try_from(&b"ACG\xffT"[..]).map(|s| s.to_string()).map_err(|e| format!("{e:?}")),
+            )
+        });
         for_each_codec!(run, ctx);
         ctx.note("rule", json!("per codec: every 1-byte string; every 2-byte string with one symbol character; valid strings at all word-boundary length classes plus random lengths (<= 5 words); the same with 1-3 injected offending bytes (lower-case twins, near-miss letters, control bytes, >= 0x80) at first/last/word-boundary/random positions; strings with 2-4-byte UTF-8 characters; symbol-iterator constructors (collect / From<&Vec> / extend / push, also through iterators whose size_hint is exact, unknown, below the true count, or as large as usize::MAX). Each string goes through every parsing entry point that can take it. A case is distinct by (codec, input bytes); all are non-trivial (each is a parse judged against the alphabet model)."));
         ctx.note("assumptions", json!(["for the 1-bit codec the 'same symbols' of the statement are the canonical symbols S/W: text ACGT parses to S/W and displays as S/W"]));
